@@ -13,10 +13,6 @@ def Op.okFor (op : Op) (s : St) : Prop :=
   | .s sop => sop.core = true ∧ sop.okFor s.w
   | _ => True
 
-/-- no evaluation stack with content is dropped by this step's exception unwinding -/
-def cleanUnwind (s : St) (op : Op) (unw : Option (Nat × Bool)) : Prop :=
-  ∀ r x k c, exec op s = some r → r.raised = some x → unw = some (k, c) → ∀ f ∈ r.s.frames.take k, slotItems f.own = []
-
 theorem exec_inv {s : St} {lk : List Item} (op : Op) (hok : op.okFor s) (inv : InvS s lk) (r : Res) (h : exec op s = some r) :
     ∃ lk', InvS r.s lk' ∧ (∀ x, r.raised = some x → WfItem r.s.c.heap x) ∧ s.c.heap.length ≤ r.s.c.heap.length ∧
       (Acyclic s.c.heap → s.base = [] → lk' = lk) := by
@@ -39,23 +35,11 @@ theorem exec_inv {s : St} {lk : List Item} (op : Op) (hok : op.okFor s) (inv : I
     obtain ⟨lk', i, hr, hl, hb⟩ := exec_ret_inv inv r h
     exact ⟨lk', i, (by intro x hx; rw [hr] at hx; cases hx), hl, fun _ hbase => hb hbase⟩
 
-theorem droppedBy_clean {s : St} {op : Op} {unw : Option (Nat × Bool)} (h : cleanUnwind s op unw) : droppedBy s op unw = [] := by
-  unfold droppedBy
-  split
-  · rename_i r k c he
-    split
-    · rename_i hr
-      cases hx : r.raised with
-      | none => simp [hx] at hr
-      | some x => exact droppedOf_clean (h r x k c he hx rfl)
-    · rfl
-  · rfl
-
-/-- one step: the leaked list grows by EXACTLY the items of the dropped evaluation stacks as long as
-no cyclic structure exists -/
+/-- one step: the leaked list does not grow as long as no cyclic structure exists (exception unwinding
+releases what it drops) -/
 theorem step_inv {s s' : St} {lk : List Item} (op : Op) (unw : Option (Nat × Bool)) (ext : Bool) (hok : op.okFor s)
     (inv : InvS s lk) (h : step s op unw ext = some s') :
-    ∃ lk', InvS s' lk' ∧ (Acyclic s.c.heap → s.base = [] → lk' = lk ++ droppedBy s op unw) := by
+    ∃ lk', InvS s' lk' ∧ (Acyclic s.c.heap → s.base = [] → lk' = lk) := by
   simp only [step] at h
   split at h
   · cases h
@@ -71,14 +55,7 @@ theorem step_inv {s s' : St} {lk : List Item} (op : Op) (unw : Option (Nat × Bo
         · cases h
         · simp only [Option.some.injEq] at h
           subst h
-          refine ⟨lk1, i1, fun ha hb => ?_⟩
-          have hd : droppedBy s op unw = [] := by
-            unfold droppedBy
-            rw [he]
-            cases unw with
-            | none => rfl
-            | some p => simp [hr]
-          rw [hd, hac ha hb]; simp
+          exact ⟨lk1, i1, hac⟩
       | some x =>
         cases hu : unw with
         | none => simp [hr, hu] at h
@@ -93,12 +70,8 @@ theorem step_inv {s s' : St} {lk : List Item} (op : Op) (unw : Option (Nat × Bo
             · cases h
             · simp only [Option.some.injEq] at h
               subst h
-              obtain ⟨lk2, i2, _, hdrop⟩ := unwind_inv x k c i1 (hraised x hr) hw
-              refine ⟨lk2, i2, fun ha hb => ?_⟩
-              have hd : droppedBy s op (some (k, c)) = droppedOf k r.s.frames := by
-                unfold droppedBy
-                rw [he]; simp [hr]
-              rw [hdrop, hac ha hb, hd]
+              obtain ⟨i2, _⟩ := unwind_inv x k c i1 (hraised x hr) hw
+              exact ⟨lk1, i2, hac⟩
 
 /-- the side conditions hold for every instruction that the machine executes without faulting in a
 state that satisfies the Map shape invariant -/
@@ -158,17 +131,16 @@ end NeoModel.VmAcct
 
 namespace NeoModel.VmAcct
 
-/-- runs in which no cyclic structure was ever built and exception unwinding never dropped an
-evaluation stack with content -/
+/-- runs in which no cyclic structure was ever built -/
 inductive RunExact : St → Prop where
   | init : RunExact St.init
   | step {s s' : St} (op : Op) (unw : Option (Nat × Bool)) (ext : Bool) :
-      RunExact s → Acyclic s.c.heap → cleanUnwind s op unw →
+      RunExact s → Acyclic s.c.heap →
       step s op unw ext = some s' → RunExact s'
 
 theorem RunExact.run {s : St} (h : RunExact s) : Run s := by
   induction h with
   | init => exact Run.init
-  | step op unw ext _ _ _ hs ih => exact Run.step op unw ext ih hs
+  | step op unw ext _ _ hs ih => exact Run.step op unw ext ih hs
 
 end NeoModel.VmAcct
